@@ -108,6 +108,8 @@ G = "cartgraph/graph.py"
 NODE = "cartgraph/node.py"
 R = "plugins/runner.py"
 MUTANTS = [
+    ("reservation-never-removed", "cartgraph/graph.py", "        try:\n            status = await self.runner.run_test_node(pre_node)\n        finally:\n            # the second step will immediately add its own entry before any other worker is scheduled\n            test_node.results.remove(pending_result)",
+     "        status = await self.runner.run_test_node(pre_node)", "T.A2b"),
     ("await-before-placeholder", R, "        node_result = {\"name\": name, \"status\": \"UNKNOWN\"}\n        node.results += [node_result]\n        await self.run_test_task(node)",
      "        await asyncio.sleep(0)\n        node_result = {\"name\": name, \"status\": \"UNKNOWN\"}\n        node.results += [node_result]\n        await self.run_test_task(node)", "1/T.A2"),
     ("placeholder-after-task", R, "        node.results += [node_result]\n        await self.run_test_task(node)", "        await self.run_test_task(node)\n        node.results += [node_result]", "1/T.A2"),
